@@ -254,6 +254,9 @@ func driverChecksImpl(env *vh.Env, rep *vh.Report, cases []*Case) {
 			perType[c.Type]++
 			reqs = append(reqs, req{c, 'C', c.Bytes})
 			lines = append(lines, "C "+vh.Hex(c.Bytes))
+			// … and the tree ENCODE: the decoded tree re-encoded by the writer layouts must be Go's bytes
+			reqs = append(reqs, req{c, 'X', c.Bytes})
+			lines = append(lines, "CE "+vh.Hex(c.Bytes))
 			continue
 		}
 		if !have[mn] {
@@ -365,6 +368,16 @@ func driverChecksImpl(env *vh.Env, rep *vh.Report, cases []*Case) {
 		case 'F':
 			if !strings.HasPrefix(o, "Attr#=") {
 				rep.Fail("correspondence", "driver:unusable", "unexpected answer to EF: "+vh.Clip(o, 200), nil)
+			}
+		case 'X':
+			switch {
+			case o == "same":
+				rep.Count("model:tree-encode:same")
+			case o == "n/a" || o == "fail": // a leaf whose writer layout has a marker section (CounterPack1); "fail" is reported by the C line
+				rep.Count("model:tree-encode:n/a")
+			default:
+				rep.Fail("correspondence", "CompositePack:model-encode-differs", "the pack tree re-encoded by the model's writer layouts (encodeTree) is not the bytes CompositePack.Write produced: "+vh.Clip(o, 200),
+					map[string]interface{}{"type": c.Type, "bytes": vh.Clip(vh.Hex(rq.body), 20000)})
 			}
 		case 'C':
 			rep.Count("model:tree")
